@@ -506,8 +506,14 @@ func (w *world) runVal(o *out, src string, call aCall, variant int) {
 		var h string
 		cs[i], h = w.cert(a, variant+i)
 		how += h[:1]
-		// what is logged about the delta is what the certificate really carries
+		// what is logged about the delta and the signers is what the certificate really carries
 		call.Certs[i].Delta = w.undelta(cs[i].PowerTableDelta)
+		if idx, err := cs[i].Signers.All(1 << 20); err == nil {
+			call.Certs[i].Signers = make([]int64, len(idx))
+			for k, v := range idx {
+				call.Certs[i].Signers[k] = int64(v)
+			}
+		}
 	}
 	var rnext uint64
 	var rchain *gpbft.ECChain
